@@ -1513,6 +1513,13 @@ func suiteC06(s *Shard, n int) {
 			if name == "a" && x == 0 && y == 0 {
 				x = 1
 			}
+			if r.Chance(15) {
+				// the end point a tiny chord away from the pen: with the large-arc flag this is (almost) the whole
+				// ellipse, without it a sliver
+				name = "a"
+				ch := []float32{1.0 / 64, 1.0 / 256, 1.0 / 1024, 1.0 / 16}[r.Intn(4)]
+				x, y = []float32{ch, -ch, 0, ch}[r.Intn(4)], []float32{0, ch, -ch, ch}[r.Intn(4)]
+			}
 			cs = append(cs, Call{Name: name, F: fl(rx, ry, rot, x, y), La: r.Bool(), Sw: r.Bool()})
 			if r.Chance(30) {
 				cs = append(cs, r.DrawCall(ProgOpts{}, drawVerbs[r.Intn(len(drawVerbs))]))
